@@ -161,8 +161,9 @@ class XIndex:
 
         ipaths(list(inst)[0], [])
 
-    def text_of(self, path: str, what: str):
-        """flattened strings of label / hint of the control at `path` (inline or through itext)"""
+    def text_of(self, path: str, what: str, lang=None):
+        """flattened strings of label / hint of the control at `path` (inline or through itext; `lang`: only
+        that translation)"""
         ctl = self.controls.get(path)
         out = []
         if ctl is None:
@@ -180,13 +181,15 @@ class XIndex:
         if not m:
             return out
         for _lang, tx in self.itext.get(m.group(1), []):
+            if lang is not None and _lang != lang:
+                continue
             for v in tx.findall(XF + "value"):
                 form = v.get("form")
                 if (what == "guidance_hint") == (form == "guidance") and form in (None, "guidance"):
                     out.append(flatten(v))
         return out
 
-    def msg_of(self, path: str, attr: str):
+    def msg_of(self, path: str, attr: str, lang=None):
         out = []
         for b in self.binds.get(path, []):
             v = b.get(attr.replace("jr:", JR))
@@ -195,6 +198,8 @@ class XIndex:
             m = re.match(r"^jr:itext\('(.*)'\)$", v)
             if m:
                 for _lang, tx in self.itext.get(m.group(1), []):
+                    if lang is not None and _lang != lang:
+                        continue
                     for val in tx.findall(XF + "value"):
                         out.append(flatten(val))
             else:
